@@ -134,8 +134,15 @@ def gen_case(i, r):
         if g > 0 and r.random() < 0.6:
             members.insert(r.randint(0, len(members)), 'grp%d' % (g - 1))     # nested group
         groups.append({'name': 'grp%d' % g, 'hooks': members})
-    refs = names + [g['name'] for g in groups]
+    if i % 5 == 1:
+        # a group reached through two sub-groups of the same parent: expanded in place, each time
+        shared = {'name': 'dia_shared', 'hooks': r.sample(names, r.randint(1, min(2, len(names))))}
+        groups += [shared, {'name': 'dia_a', 'hooks': [r.choice(names), 'dia_shared']}, {'name': 'dia_b', 'hooks': ['dia_shared', r.choice(names)]},
+                   {'name': 'dia_top', 'hooks': ['dia_a', 'dia_b'] + ([r.choice(names)] if i % 2 else [])}]
+    refs = names + [g['name'] for g in groups if not g['name'].startswith('dia_')]
     cert_hooks = r.sample(refs, r.randint(1, min(5, len(refs))))
+    if i % 5 == 1:
+        cert_hooks.insert(r.randint(0, len(cert_hooks)), 'dia_top')
     if r.random() < 0.3:
         cert_hooks.append(r.choice(cert_hooks))      # the same hook listed twice
     acc_hooks = r.sample(refs, r.randint(0, min(3, len(refs))))
@@ -199,7 +206,11 @@ def run_case(case):
             if sp:
                 # challenge names are case-insensitive in the configuration
                 ctype = {'upper': ctype.upper(), 'title': ctype.title(), 'mixed': ''.join(ch.upper() if j % 2 else ch for j, ch in enumerate(ctype))}[sp]
-            idl.append({kind: v, 'challenge': ctype, 'env': dict(case['env']['identifier'])})
+            # besides the shared variables, each identifier has one of its own, and every other one a second
+            own = {'VF_ONLY_ID%d' % k: 'id%d' % k}
+            if k % 2 == 0:
+                own['VF_EVEN'] = 'id%d' % k
+            idl.append({kind: v, 'challenge': ctype, 'env': dict(case['env']['identifier'], **own)})
         c = S.std_config(d, ca, [{'name': 'c0', 'identifiers': idl, 'hooks': case['cert_hooks'], 'env': dict(case['env']['certificate'])}],
                          accounts=[{'name': 'acc1', 'hooks': case['acc_hooks'], 'env': dict(case['acc_env'])}],
                          global_extra={'env': dict(case['env']['global'])})
@@ -337,6 +348,21 @@ def run_case(case):
                             pb.append(('environment', '%s hook %s: variable %s (set at %s) is %r, precedence gives %r' % (
                                 event, hook, var, [l for b, l in enumerate(LEVELS) if mask >> b & 1], env.get(var), wantv)))
                             break
+                    # variables of one identifier's table exist for the hooks of that identifier only
+                    idx = None
+                    if event.startswith('challenge'):
+                        vals = [T.expected_alabel(v) if kd == 'dns' else v for (v, _), kd in zip(case['ids'], case['id_kinds'])]
+                        if kv.get('identifier') in vals:
+                            idx = vals.index(kv.get('identifier'))
+                    if idx is not None or not event.startswith('challenge'):
+                        for k2 in range(len(case['ids'])):
+                            wantv = 'id%d' % k2 if k2 == idx else None
+                            if env.get('VF_ONLY_ID%d' % k2) != wantv:
+                                pb.append(('environment', '%s hook %s for identifier #%s: VF_ONLY_ID%d (set in the table of identifier #%d only) is %r' % (event, hook, idx, k2, k2, env.get('VF_ONLY_ID%d' % k2))))
+                                break
+                        wantv = 'id%d' % idx if (idx is not None and idx % 2 == 0) else None
+                        if env.get('VF_EVEN') != wantv:
+                            pb.append(('environment', '%s hook %s for identifier #%s: VF_EVEN is %r, expected %r' % (event, hook, idx, env.get('VF_EVEN'), wantv)))
                 else:
                     if env.get('VF_ACC') != 'account' or env.get('VF_D') != 'account-over-daemon':
                         pb.append(('environment', 'account file hook %s: VF_ACC=%r VF_D=%r' % (hook, env.get('VF_ACC'), env.get('VF_D'))))
@@ -416,7 +442,7 @@ def run(tier):
             if cls == 'environment':
                 key = 'environment|%s' % what.split(' hook ')[0]
             chk.violation('C10|%s' % key, what, res, res.get('replay_dir'))
-    chk.rule = ('generated hook sets: 1-8 hooks with 1-4 types each, 0-3 (nested) groups, hooks listed twice, allow_failure x scripted exit codes and deaths by signal, '
+    chk.rule = ('generated hook sets: 1-8 hooks with 1-4 types each, 0-3 (nested) groups, groups reached twice through sub-groups of one parent, hooks listed twice, variables private to one identifier, allow_failure x scripted exit codes and deaths by signal, '
                 'stdin / stdin_str / stdout / stderr templates, rev_labels, {{ env.X }} templates, challenge names in other letter cases, hooks that create or move away the file being written, global environment defined in two included files, 15 environment variables covering every subset of (daemon, global, certificate, '
                 'identifier); 1-3 identifiers over the three challenge types; first issuance + renewal and the retries the exit codes cause; '
                 'distinct = configurations with matched invocations')
